@@ -64,8 +64,37 @@ func c01SharedSentinel() {
 	vhdr.SharedVerifyError.SoftFailure = false
 }
 
+// c01TypedNil: the header type's Verify returns a typed-nil *VerifyError in the error interface (a non-nil error).
+// Verify must still return a *VerifyError - hard when adjacent, soft when not - and must not panic.
+func c01TypedNil() {
+	now := time.Now().UnixNano()
+	t := &vhdr.Header{Chain: "A", H: 5, T: now - int64(time.Hour), VK: vhdr.VKOk}
+	cls := func(u *vhdr.Header) (res string) {
+		defer func() {
+			if recover() != nil {
+				res = "PANIC"
+			}
+		}()
+		err := header.Verify(t, u)
+		var ve *header.VerifyError
+		switch {
+		case err == nil:
+			return "nil"
+		case errors.As(err, &ve) && ve != nil && ve.SoftFailure:
+			return "soft"
+		case errors.As(err, &ve) && ve != nil:
+			return "hard"
+		}
+		return "other"
+	}
+	a := cls(&vhdr.Header{Chain: "A", H: 6, T: now - int64(time.Minute), VK: vhdr.VKNilVerr})
+	f := cls(&vhdr.Header{Chain: "A", H: 9, T: now - int64(time.Minute), VK: vhdr.VKNilVerr})
+	emit("C01 kind=typednil => adjacent=%s nonadjacent=%s", a, f)
+}
+
 func runC01(tier string, r *rng) {
 	c01SharedSentinel()
+	c01TypedNil()
 	hour, min := int64(time.Hour), int64(time.Minute)
 	// the complete grid of the property's quantifier (both tiers)
 	for _, tz := range []bool{false, true} {
